@@ -178,6 +178,7 @@ def run_property(prop, tier, specs, level, title, assumptions, functions_hint=()
         per_spec.append(dict(spec=spec.name, what=spec.what, params=spec.params, paths=r.paths,
                              aborted_infeasible=r.aborted, branch_decisions=r.decisions,
                              solver_queries=r.queries, obligations=r.prove_queries,
+                             fresh_solver_fallbacks=getattr(r, 'fallbacks', 0),
                              solver_s=round(r.t_solver, 2), wall_s=round(r.wall, 2),
                              violations=len(r.violations), xval_replayed=nx))
     # ---- verdict
